@@ -679,11 +679,11 @@ def main():
     mult = 12 if thorough else 1
     rng = chk.rng
     sets = {
-        "srv-t": [gen_server(rng, "t") for _ in range(140 * mult)],
-        "srv-u": [gen_server(rng, "u") for _ in range(160 * mult)],
-        "ipc": [gen_ipc(rng) for _ in range(260 * mult)],
-        "con-t": [gen_connect(rng, "t") for _ in range(300 * mult)],
-        "con-p": [gen_connect(rng, "p") for _ in range(300 * mult)],
+        "srv-t": [gen_server(rng, "t") for _ in range(300 * mult)],
+        "srv-u": [gen_server(rng, "u") for _ in range(350 * mult)],
+        "ipc": [gen_ipc(rng) for _ in range(600 * mult)],
+        "con-t": [gen_connect(rng, "t") for _ in range(700 * mult)],
+        "con-p": [gen_connect(rng, "p") for _ in range(700 * mult)],
         "w": write_table(),
     }
     for key in ["w", "ipc", "srv-u", "srv-t", "con-t", "con-p"]:
